@@ -328,7 +328,9 @@ class MemTermsReader(base.TermsReader):
     def matcher(self, fieldname, btext, format_, scorer=None):
         items = self._invindex[fieldname][btext]
         ids, weights, values = zip(*items)
-        return ListMatcher(ids, weights, values, format_, scorer=scorer)
+        return ListMatcher(ids, weights, values, format_, scorer=scorer,
+                           term=(fieldname, btext),
+                           terminfo=self.term_info(fieldname, btext))
 
     def indexed_field_names(self):
         return self._invindex.keys()
